@@ -389,7 +389,7 @@ Proof.
     destruct (c_inb k) as [|[tg sy] rest] eqn:Hinb; [discriminate|].
     destruct (stream_sym p sy) as [p1|] eqn:Hss; [|discriminate]. injection Hstep as <-.
     pose proof (proj2 HI t) as Ht. rewrite Hth in Ht.
-    assert (Hsp : is_stream_phase p = true) by (destruct p as [ | | | | | |? [|]|[|]|[|]]; cbn in Hss; try discriminate; reflexivity).
+    assert (Hsp : is_stream_phase p = true) by (destruct p as [ | | | | | | |? [|]|[|?] [|]|[|]]; cbn in Hss; try discriminate; reflexivity).
     destruct (stream_phase_facts _ _ _ _ _ Ht Hsp) as (Hs & Ho & r & (Ha & Hwf & Heq) & Hh & Hn & Hph).
     pose proof (pend_set_inb _ _ _ Hinb) as Hpend. rewrite Hpend in Hph, Heq.
     set (k1 := set_inb k rest) in *.
@@ -400,28 +400,35 @@ Proof.
     { intros Hp1. split; [exact Hs|].
       destruct p1; cbn in Hp1; try contradiction; (split; [exact Ho|]); exists r; (split; [exact Hans1|]); (split; [exact Hh|]); (split; [exact Hn|]); exact Hp1. }
     apply Hgoal. clear Hgoal.
-    destruct p as [ | | | | | |n [|]|[|]|[|]]; cbn in Hss; try discriminate.
-    + destruct Hph as (Hst & Hl & _). cbn in Hl. destruct n as [|[|n]]; try discriminate; injection Hss as <-; cbn.
+    destruct p as [ | | | | | | |n [|]|m [|]|[|]]; try discriminate.
+    + cbn in Hss. destruct Hph as (Hst & Hl & _). cbn in Hl. destruct n as [|[|n]]; try discriminate; injection Hss as <-; cbn.
       * split; [exact Hst|]. split; [lia|auto].
       * split; [exact Hst|]. split; [lia|discriminate].
-    + destruct Hph as (Hst & [[Hnil _]|[[rb Hrb] _]]); [discriminate|].
-      destruct rb as [|b rb]; cbn in Hrb; injection Hrb as Htg Hsy Hrest; subst sy; injection Hss as <-; cbn; (split; [exact Hst|]).
-      * left. split; [exact Hrest|reflexivity].
-      * right. split; [exists rb; exact Hrest|discriminate].
-    + injection Hss as <-. exact Hph.
+    + destruct Hph as (Hst & [[Hnil _]|[_ Hrb]]); [discriminate|].
+      destruct m as [|m].
+      * destruct Hrb as [rb Hrb]. destruct rb as [|b rb]; cbn in Hrb; injection Hrb as Htg Hsy Hrest; subst sy; cbn in Hss;
+          injection Hss as <-; cbn; (split; [exact Hst|]).
+        -- left. split; [exact Hrest|reflexivity].
+        -- right. split; [discriminate|]. exists (b :: rb). split; [exact Hrest|reflexivity].
+      * destruct Hrb as (rb & Hrb & Hl). destruct rb as [|b rb]; [discriminate|]. cbn in Hrb. injection Hrb as Htg Hsy Hrest.
+        cbn in Hss. injection Hss as <-. cbn in Hl. cbn. split; [exact Hst|]. right. split; [discriminate|].
+        destruct m as [|m].
+        -- destruct rb; [|discriminate]. exists []. exact Hrest.
+        -- exists rb. split; [exact Hrest|lia].
+    + cbn in Hss. injection Hss as <-. exact Hph.
   - (* LStreamEof *)
     destruct (s_thr s t) as [|x p k|] eqn:Hth; try discriminate.
     destruct (c_inb k) eqn:Hinb; [|discriminate]. destruct (stream_eof p) as [p1|] eqn:Hse; [|discriminate].
     destruct (c_srvclosed k) eqn:Hc; [|discriminate]. injection Hstep as <-.
     pose proof (proj2 HI t) as Ht. rewrite Hth in Ht.
     assert (Hd : dead k) by (split; assumption).
-    assert (Hsp : is_stream_phase p = true) by (destruct p as [ | | | | | |? [|]|[|]|[|]]; cbn in Hse; try discriminate; reflexivity).
+    assert (Hsp : is_stream_phase p = true) by (destruct p as [ | | | | | | |? [|]|[|?] [|]|[|]]; cbn in Hse; try discriminate; reflexivity).
     destruct (stream_phase_facts _ _ _ _ _ Ht Hsp) as (Hs & Ho & r & Hans & Hh & Hn & Hph).
     apply inv_set_thr0; [exact HI|]. split; [exact Hs|].
-    destruct p as [ | | | | | |n [|]|[|]|[|]]; cbn in Hse; try discriminate; injection Hse as <-;
+    destruct p as [ | | | | | | |n [|]|[|m] [|]|[|]]; cbn in Hse; try discriminate; injection Hse as <-;
       (split; [exact Ho|]); exists r; (split; [exact Hans|]); (split; [exact Hh|]); (split; [exact Hn|]); cbn in Hph |- *.
     + destruct Hph as (Hst & Hl & _). auto.
-    + destruct Hph as (Hst & [[_ He]|[Hrb _]]); [discriminate|]. split; [exact Hst|]. right. auto.
+    + destruct Hph as (Hst & [[_ He]|[_ Hrb]]); [discriminate|]. split; [exact Hst|]. right. auto.
     + exact Hph.
   - (* LCloseStream *)
     destruct (s_thr s t) as [|x p k|] eqn:Hth; try discriminate.
@@ -436,12 +443,12 @@ Proof.
     + apply inv_set_thr; [exact HI| |apply Hdone].
       intros k' [<-|Hin]; [|apply HI; exact Hin]. split; [exact Ho|].
       apply orb_false_elim in Hc as [Hc Hu]. apply orb_false_elim in Hc as [Hcc _].
-      destruct p as [ | | | | | |n e|e|e]; try discriminate; cbn in Hph, Hu.
+      destruct p as [ | | | | | | |n e|m e|e]; try discriminate; cbn in Hph, Hu.
       * apply quiet_of_pend. apply Hph.
       * destruct e; [|discriminate]. destruct Hph as (_ & Hl & He). destruct (He eq_refl) as [->|Hd].
         -- apply quiet_of_pend, length_zero_nil, Hl.
         -- apply quiet_of_dead, Hd.
-      * destruct e; [|discriminate]. destruct Hph as (_ & [[Hnil _]|[_ He]]).
+      * destruct e; [|discriminate]. destruct Hph as (_ & [[Hnil _]|[He _]]).
         -- apply quiet_of_pend, Hnil.
         -- apply quiet_of_dead, He. reflexivity.
       * exfalso. destruct Hph as [_ Hfr].
@@ -704,7 +711,7 @@ Proof.
         cbn in H1. injection H1 as H1. peq_split; auto. intros a Ha. apply H4. right. exact Ha. }
     destruct (rd_sym 0 (p_skip it) false p sy) as [p1|body|e] eqn:Hrd; injection Hstep as <-.
     + (* RMore *)
-      pose proof Hrd as Hrd0. destruct p as [ | |n|cnt|cnt| |n e0|e0|e0]; cbn in Hrd; try discriminate.
+      pose proof Hrd as Hrd0. destruct p as [ | |n|cnt|cnt n|cnt| |n e0|n e0|e0]; cbn in Hrd; try discriminate.
       * destruct H5 as [-> H5]. rewrite Hpend in H5.
         destruct A as [|[it' r] A']; [discriminate|]. cbn in H1. injection H1 as -> H1.
         rewrite wires_cons in H5. unfold wire_of at 1 in H5. cbn [fst snd] in H5. rewrite twire_cons in H5. cbn [app] in H5.
@@ -728,11 +735,18 @@ Proof.
         rewrite Hrd0 in Hb.
         apply (Hmore p1 ((it, r) :: A')); [destruct p1; cbn in Hb; try contradiction; discriminate| |reflexivity].
         exists r, A', rest'. repeat split; auto. rewrite <- app_assoc. exact Hg.
+      * destruct H5 as (r & A' & rest' & -> & Hp & Hg & Hnw & Hph). rewrite Hpend in Hp.
+        destruct rest' as [|a rest']; [cbn in Hph; destruct Hph as (_ & [|? ?] & Hl & _); discriminate|].
+        cbn in Hp. injection Hp as <- Hp.
+        pose proof (rd_body_ok (p_id it) 0 (p_skip it) false False _ r tg sy rest' Hph eq_refl) as Hb.
+        rewrite Hrd0 in Hb.
+        apply (Hmore p1 ((it, r) :: A')); [destruct p1; cbn in Hb; try contradiction; discriminate| |reflexivity].
+        exists r, A', rest'. repeat split; auto. rewrite <- app_assoc. exact Hg.
       * destruct H5 as (r & A' & rest' & -> & Hp & Hg & Hnw & Hph). exfalso.
         destruct (H4 (it, r) (or_introl eq_refl)) as (_ & Hdl & _). cbn in Hdl, Hph.
         apply delimited_not_ident in Hdl. apply Hdl, Hph.
     + (* RDone *)
-      pose proof Hrd as Hrd0. destruct p as [ | |n|cnt|cnt| |n e0|e0|e0]; cbn in Hrd; try discriminate.
+      pose proof Hrd as Hrd0. destruct p as [ | |n|cnt|cnt n|cnt| |n e0|n e0|e0]; cbn in Hrd; try discriminate.
       * destruct H5 as [-> H5]. rewrite Hpend in H5.
         destruct A as [|[it' r] A']; [discriminate|]. cbn in H1. injection H1 as -> H1.
         rewrite wires_cons in H5. unfold wire_of at 1 in H5. cbn [fst snd] in H5. rewrite twire_cons in H5. cbn [app] in H5.
@@ -750,6 +764,12 @@ Proof.
         apply (Hdone r A'); [reflexivity|exact Hp|exact Hg].
       * destruct H5 as (r & A' & rest' & -> & Hp & Hg & Hnw & Hph). rewrite Hpend in Hp.
         destruct rest' as [|a rest']; [cbn in Hph; destruct Hph as [[|? ?] Hl]; discriminate|].
+        cbn in Hp. injection Hp as <- Hp.
+        pose proof (rd_body_ok (p_id it) 0 (p_skip it) false False _ r tg sy rest' Hph eq_refl) as Hb.
+        rewrite Hrd0 in Hb. destruct Hb as [-> _].
+        apply (Hdone r A'); [reflexivity|exact Hp|exact Hg].
+      * destruct H5 as (r & A' & rest' & -> & Hp & Hg & Hnw & Hph). rewrite Hpend in Hp.
+        destruct rest' as [|a rest']; [cbn in Hph; destruct Hph as (_ & [|? ?] & Hl & _); discriminate|].
         cbn in Hp. injection Hp as <- Hp.
         pose proof (rd_body_ok (p_id it) 0 (p_skip it) false False _ r tg sy rest' Hph eq_refl) as Hb.
         rewrite Hrd0 in Hb. destruct Hb as [-> _].
